@@ -164,7 +164,7 @@ def make_router(ciw, sc, ctx, r, k):
             ctx.step("routefn", i=ind.id_number, x=k + 1, y=j)
             rt = routes[j]
             if kind == "pb":
-                return [e for e in rt]
+                return [e[0] for e in rt]
             return [list(e) for e in rt]
         if kind == "pb":
             return ciw.routing.ProcessBased(fn)
